@@ -2,6 +2,7 @@ package main
 
 import (
 	"bufio"
+	"bytes"
 	"context"
 	"encoding/json"
 	"flag"
@@ -20,6 +21,7 @@ import (
 	"github.com/ansible/receptor/pkg/netceptor"
 	"github.com/ansible/receptor/pkg/services"
 	"github.com/ansible/receptor/pkg/verifhook"
+	"verif/harness/freeport"
 	"verif/harness/memnet"
 	"verif/harness/mesh"
 )
@@ -709,13 +711,124 @@ func runConnect(o c03opts, idx int64, variant string) scenarioOut {
 }
 
 func freePort() int {
-	l, err := net.Listen("tcp", "127.0.0.1:0")
+	p, err := freeport.Get()
 	if err != nil {
 		return 0
 	}
-	defer l.Close()
 
-	return l.Addr().(*net.TCPAddr).Port
+	return p
+}
+
+// runDialCtx: the caller of DialContext follows the Go idiom (ctx, cancel := context.WithTimeout(...); defer cancel())
+// and cancels the dial context once the dial has returned. A context governs the dial, not the connection made by it
+// (DialContext itself stops watching it when the stream is open: close(okChan)), so the stream must stay a reliable
+// pipe. The goroutine that watches the context during the dial is held at the gate dial_watch_before_select until the
+// dial has returned and the context has been cancelled - the schedule a loaded machine produces by itself (seen once
+// in direct/chain2/bulk: "Write at offset 0 ... connection context closed"). Runs alone: the gate is process-wide.
+func runDialCtx(o c03opts, idx int64, reps int) scenarioOut {
+	out := scenarioOut{Name: "dialctx/cancel-after-dial", Detail: map[string]any{}}
+	rng := rand.New(rand.NewSource(o.seed*7919 + idx))
+	m, err := buildMesh(o.seed*100+idx, []string{"a", "b"}, []string{"a-b"}, mesh.Opts{RouteUpdate: 300 * time.Millisecond})
+	if err != nil {
+		out.Inconcl = err.Error()
+
+		return out
+	}
+	defer m.StopAll()
+	li, err := m.Nodes["b"].N.ListenAndAdvertise("sink", nil, nil)
+	if err != nil {
+		out.Inconcl = err.Error()
+
+		return out
+	}
+	defer closeListenerBounded(li)
+	type ar struct {
+		c   net.Conn
+		err error
+	}
+	pipe := func(w, r *netceptor.Conn, dir string, data []byte) string {
+		werr := make(chan error, 1)
+		go func() {
+			_ = w.SetWriteDeadline(time.Now().Add(20 * time.Second))
+			_, e := w.Write(data)
+			werr <- e
+		}()
+		got := make([]byte, len(data))
+		_ = r.SetReadDeadline(time.Now().Add(20 * time.Second))
+		n, rerr := io.ReadFull(r, got)
+		if e := <-werr; e != nil {
+			return fmt.Sprintf("Write of %d bytes in direction %s failed: %v", len(data), dir, e)
+		}
+		if rerr != nil {
+			return fmt.Sprintf("Read in direction %s failed after %d of %d bytes: %v", dir, n, len(data), rerr)
+		}
+		if !bytes.Equal(got, data) {
+			return fmt.Sprintf("direction %s: the %d bytes read differ from the bytes written", dir, len(data))
+		}
+
+		return ""
+	}
+	parked := 0
+	for rep := 0; rep < reps && out.Sig == ""; rep++ {
+		hit, release := verifhook.HoldGate("dial_watch_before_select")
+		ach := make(chan ar, 1)
+		go func() { c, err := li.Accept(); ach <- ar{c, err} }()
+		ctx, cancel := context.WithTimeout(context.Background(), 60*time.Second)
+		d, err := m.Nodes["a"].N.DialContext(ctx, "b", "sink", nil)
+		if err != nil {
+			cancel()
+			release()
+			out.Inconcl = out.Name + ": dial: " + err.Error()
+
+			return out
+		}
+		var a *netceptor.Conn
+		select {
+		case r := <-ach:
+			if r.err != nil {
+				cancel()
+				release()
+				out.Inconcl = out.Name + ": accept: " + r.err.Error()
+
+				return out
+			}
+			a = r.c.(*netceptor.Conn)
+		case <-time.After(60 * time.Second):
+			cancel()
+			release()
+			out.Inconcl = out.Name + ": accept timeout"
+
+			return out
+		}
+		select {
+		case <-hit:
+			parked++
+		case <-time.After(2 * time.Second):
+		}
+		cancel()  // the dial is over; this is what "defer cancel()" does in the caller
+		release() // now the watcher looks at its channels
+		time.Sleep(30 * time.Millisecond)
+		data := make([]byte, 16<<10+rng.Intn(32<<10))
+		rng.Read(data)
+		what := pipe(d, a, "ab", data)
+		if what == "" {
+			what = pipe(a, d, "ba", data[:len(data)/2])
+		}
+		if what != "" {
+			out.Sig = "stream-broken-by-cancel-after-dial"
+			out.What = fmt.Sprintf("dial %d: the dial context was cancelled after DialContext had returned the connection (links perfect, nodes adjacent): %s", rep+1, what)
+		}
+		_ = d.Close()
+		_ = a.Close()
+		_ = d.CloseConnection()
+		_ = a.CloseConnection()
+	}
+	out.Detail["dials"], out.Detail["watcher_parked"] = reps, parked
+	if out.Sig == "" && parked == 0 {
+		out.Inconcl = out.Name + ": the context watcher of DialContext never reached the gate dial_watch_before_select (hook missing?)"
+	}
+
+	return out
 }
 
 // runProxy: TCP client -> TCPProxyServiceInbound (node a) -> mesh -> TCPProxyServiceOutbound (node c) -> TCP server.
@@ -1284,7 +1397,18 @@ func cmdC03(args []string) {
 		addDirect("diamond", "bulk", 4<<20)
 		addDirect("cut_transit", "bulk", 4<<20)
 	}
-	outs := make([]scenarioOut, len(jobs))
+	outs := make([]scenarioOut, len(jobs)+1)
+	if *only == "" || strings.Contains("dialctx/cancel-after-dial", *only) {
+		// alone, before anything else dials: its gate is process-wide
+		idx++
+		dreps := 10
+		if *tier == "thorough" {
+			dreps = 60
+		}
+		t0 := time.Now()
+		outs[len(jobs)] = runDialCtx(o, idx, dreps)
+		outs[len(jobs)].Wall = time.Since(t0).Seconds()
+	}
 	sem := make(chan struct{}, *par)
 	var wg sync.WaitGroup
 	for j := range jobs {
